@@ -82,6 +82,9 @@ def inetAddress (defaultHost : Str) (s : Str) : R (Str × Option Int) := do
 
 inductive Family | unix | inet | inet6 deriving Repr, DecidableEq
 
+def familyStr : Family → Str
+  | .unix => "AF_UNIX".toList | .inet => "AF_INET".toList | .inet6 => "AF_INET6".toList
+
 /-- `SocketAddress.__init__` (os.sep = '/') -/
 def socketAddress (defaultHost : Str) (s : Str) : R (Family × Sum Str (Str × Option Int)) :=
   if s.contains '/' then .ok (.unix, .inl s)
